@@ -11,6 +11,7 @@ Each such way is an ordinary linear command list; its later behaviour is compare
 with a twin world that never opened the batch.
 """
 from ..core import HarnessError, Stats, Violation, deep, fresh, hx, unhx
+from ..simdb import STORE_FLAVOURS
 from ..hgen import HistoryGen, make_pool, make_values, probe_keys, rare_huge
 from ..hworld import ClientAbort, HWorld
 
@@ -392,7 +393,7 @@ def generate(rng):
     if not prune and rng.random() < 0.2:
         ops.insert(0, {"op": "bassign", "root": rng.randrange(1000)})
     return {
-        "cfg": {"prune": prune, "cache": cache, "rc": rng.choice(["defaultdict", "defaultdict", "counter"]), "store": rng.choice(["min", "min", "dict"]), "probe": [hx(x) for x in probes[:40]]},
+        "cfg": {"prune": prune, "cache": cache, "rc": rng.choice(["defaultdict", "defaultdict", "counter"]), "store": rng.choice(STORE_FLAVOURS), "probe": [hx(x) for x in probes[:40]]},
         "prefix": prefix,
         "ops": ops,
         "suffix": suffix,
